@@ -543,5 +543,6 @@ def check(ctx):
         c07.no_dialect_mutation(ctx, f_, "R6")
     c07.r_printer(ctx, rule="R6")
     c07.r_roundtrip(ctx, rule="R6")
+    c07.r_literal(ctx, rule="R6")
     for o in ctx.obs[n0:]:
         o.rule = "C01.R6"
